@@ -1,8 +1,8 @@
 """All jobs and the property table."""
-from . import jobs_util, jobs_perm, jobs_aead, jobs_spec, jobs_clean, jobs_hash, native
+from . import jobs_util, jobs_perm, jobs_aead, jobs_spec, jobs_clean, jobs_hash, jobs_l2, native
 
 JOBS = {}
-for mod in (jobs_util, jobs_perm, jobs_aead, jobs_spec, jobs_clean, jobs_hash):
+for mod in (jobs_util, jobs_perm, jobs_aead, jobs_spec, jobs_clean, jobs_hash, jobs_l2):
     for j in mod.JOBS:
         assert j["name"] not in JOBS, j["name"]
         JOBS[j["name"]] = j
@@ -150,6 +150,36 @@ PROPS["C11"] = {
     "text": "abstract-view contracts: update from an arbitrary valid state (any posn < 16, L, R, buffered bytes) advances the view by a byte-wise fold over its input (the monitor consumes bytes by its own cursor), hence any split into update calls gives the same view; init/reinit from arbitrary bytes establish the initial view completely; finalize = final(view); NULL/0 and empty updates leave the view unchanged; every function writes only its own state object (exact-size objects).",
     "note": "the induction over the call history (each operation verified for all valid pre-states; init establishes validity from arbitrary bytes) is the standard representation-invariant meta-step, stated, not re-checked by the tool. Quick tier: bounded (posn, inlen) grid incl. the 'top up, compress, continue' path; thorough tier: unbounded loop contract for every inlen.",
     "technique": "CBMC contracts with abstract view (representation invariant posn < 16) + loop contract",
+    "trusted": TRUSTED,
+}
+
+for n, j in JOBS.items():
+    if n.startswith("hmac."):
+        j["replay"] = native.lib_replay("hmac")
+    if n.startswith("hkdf."):
+        j["replay"] = native.lib_replay("hkdf")
+    if n.startswith("pbkdf2."):
+        j["replay"] = native.lib_replay("pbkdf2")
+L2NOTE = ("L2 is strictly modular: the hash API is replaced by its contract (stubs/hash_abs.c: digest = H(bytes absorbed since init), H an arbitrary "
+          "function); that the real hash satisfies it for every chunking is C10/C11. Value obligations are BOUNDED IN LENGTH (stated grid of concrete "
+          "lengths) and complete in values (all bytes symbolic, every H); the scalar state machines are unbounded via loop contracts. ")
+PROPS["C12"] = {
+    "level": "proof",
+    "quick": [n for n in JOBS if n.startswith("hmac.rfc2104.grid.")] + ["hash.update.grid", "hash.init", "hash.finalize"],
+    "thorough": [n for n in JOBS if n.startswith("hmac.rfc2104.grid")] + ["hash.update.grid", "hash.init", "hash.finalize", "hash.update.u"],
+    "campaign": native.lib_campaign("hmac"),
+    "text": "real tinyjambu-hmac.c (one-shot, and init/update/reinit/update/update/finalize) over the hash API's contract == RFC 2104 (block 64, keys > 64 hashed first, key = 64 used as is, empty key) over the same arbitrary hash function H, on a grid of key/message lengths with all bytes symbolic; hmac_update is a call-through to hash_update, so any chunking of the message is covered by C11's unbounded update contract.",
+    "note": L2NOTE + "Quick grid: key lengths {0,1,31,32,33,63,64,65,66,80,129} x message lengths {0,17} and {20,64,65} x {1,16,33,40}; thorough: every key length 0..130 and every message length 0..48. For keylen > 64 the code makes one hash_update(key, keylen) whatever the length, so longer keys differ only inside the hash.",
+    "technique": "CBMC: real code over contract stubs of the callee API (abstract hash function) vs RFC reference; bounded lengths, symbolic values",
+    "trusted": TRUSTED,
+}
+PROPS["C13"] = {
+    "level": "proof",
+    "quick": ["hkdf.expand.sm", "hkdf.oneshot.cap"] + [n for n in JOBS if n.startswith(("hkdf.step.grid.", "hkdf.extract.grid."))],
+    "campaign": native.lib_campaign("hkdf"),
+    "text": "unbounded: hkdf_expand state machine from an arbitrary valid (counter, posn) for every outlen (loop contract): -1 iff the request passes byte 8160, served bytes advance by exactly outlen capped at 8160, zero fill beyond, one HMAC per new block, counter wrap 255 -> 0 terminal; one-shot: refuses exactly outlen > 8160 and then writes nothing / derives nothing, else extract + one expand. Bounded: expand step == RFC 5869 recurrence from an abstract state (PRK, T(n-1), n, posn) and extract == HMAC(salt or 32 zeros, key) over an arbitrary hash function.",
+    "note": L2NOTE + "Step grid: n in {1,2,3,7,200,254}, posn in {1,17,20,32}, outlen up to 70, infolen up to 20; extract grid: 6 (keylen, saltlen) pairs. In the state-machine proof the HMAC API is a frame-only stub and memcpy/memset into the unbounded output are modelled at one arbitrary ghost index (stubs/mem*_ghost.c).",
+    "technique": "CBMC loop contract on the real hkdf_expand (ghost 'bytes served' view) + bounded functional step over contract stubs",
     "trusted": TRUSTED,
 }
 
